@@ -4,6 +4,7 @@ import Holpy.C16.SimplexModel
 import Mathlib.Tactic.Ring
 import Holpy.C16.StrictSimplexCheck2
 import Holpy.C16.StrictSimplexHandle
+import Holpy.C16.StrictSimplexRun
 /-
 C16 — property theorems about the δ-rationals of `prover/simplex_strict.py` (`Pair`, `binary_delta`,
 `multi_delta`; model in StrictModel.lean, tied to the code by the `delta` stream of
@@ -142,5 +143,60 @@ example : poutcomeTag (handleAssertionP 9 ⟨exampleStateS, fun _ => 0, fun _ =>
     poutcomeTag (handleAssertionP 9 ⟨exampleStateS, fun _ => 0, fun _ => none, fun _ => none⟩ [.leq 100 ⟨0, 0⟩, .leq 101 ⟨0, -1⟩, .geq 0 ⟨1, 1⟩] 0 []).1 = 1 ∧
     poutcomeTag (handleAssertionP 9 ⟨exampleStateS, fun _ => 0, fun _ => none, fun _ => none⟩ [.geq 100 ⟨1, 1⟩, .leq 100 ⟨1, 0⟩] 0 []).1 = 2 := by
   decide +kernel
+
+/-- the constraint as `simplex_strict` receives it: `>` / `<` become `≥ b + δ` / `≤ b − δ` -/
+def toP (q : SIneq) : PIneq := ⟨q.kind, q.jars, boundPair q⟩
+
+private theorem evalP_eq_EP (js : Jars) (m : Var → Pair) : evalP js m = EP js m := by
+  induction js with
+  | nil => simp [evalP, EP, evalJ]
+  | cons p js ih => obtain ⟨x, c⟩ := p; simp only [evalP, ih, EP, evalJ]
+
+private theorem comparison_iff (q : SIneq) (m : Var → Pair) :
+    (comparison q m).1.le (comparison q m).2 = true ↔ PIneqHolds (toP q) m := by
+  unfold comparison PIneqHolds toP
+  cases hk : q.kind <;> simp only [hk, ple_iff, evalP_eq_EP]
+
+/-- A whole run `s = simplex_strict.Simplex(); s.add_ineqs(*qs); s.handle_assertion()` that ends
+without exception (any fuel): with `δ = multi_delta(comparisons)` the rational assignment
+`x ↦ mapping[x].x + mapping[x].y·δ` satisfies every given constraint, the strict ones (`>`/`<`)
+strictly.  (`InputOK` as for the non-strict solver; constraints of the ignored form `0·x ⋈ b` excluded.) -/
+theorem strict_sat_sound (N fuel : Nat) (sq : List SIneq) (hin : InputOK N ((sq.map toP).map projIneq))
+    (hnz : ∀ q ∈ sq, ∀ x, q.jars ≠ [(x, 0)]) (s' : PState) (tr : List PState)
+    (h : runP fuel (sq.map toP) = (.sat s', tr)) :
+    0 < multiDelta (sq.map (comparison · (pval s'))) ∧
+      ∀ q ∈ sq, q.holds (fun x => (pval s' x).at (multiDelta (sq.map (comparison · (pval s'))))) :=
+  strict_sat_sound_partial sq (pval s') (fun q hq =>
+    (comparison_iff q (pval s')).mpr (runP_sat N fuel (sq.map toP) hin s' tr h (toP q) (List.mem_map.mpr ⟨q, hq, rfl⟩) (hnz q hq)))
+
+/-- A whole run of `simplex_strict.Simplex` that ends in `UNSATException` or an
+`AssertUpper/LowerException`: the given constraints (strict ones strictly) have no rational solution.
+Fuel-bounded like the non-strict statement: the outcome `fuel` claims nothing. -/
+theorem strict_unsat_sound (N fuel : Nat) (sq : List SIneq) (hin : InputOK N ((sq.map toP).map projIneq))
+    (o : POutcome) (tr : List PState) (h : runP fuel (sq.map toP) = (o, tr))
+    (ho : (∃ xi s', o = .unsat xi s') ∨ (∃ j s', o = .conflict j s')) :
+    ¬ ∃ w : Var → ℚ, ∀ q ∈ sq, q.holds w := by
+  rintro ⟨w, hw⟩
+  apply runP_unsat N fuel (sq.map toP) hin o tr h ho
+  refine ⟨fun x => ⟨w x, 0⟩, ?_⟩
+  intro p hp
+  obtain ⟨q, hq, rfl⟩ := List.mem_map.mp hp
+  have hh := hw q hq
+  have hE : EP q.jars (fun x => (⟨w x, 0⟩ : Pair)) = ⟨evalJ q.jars w, 0⟩ := by
+    simp only [EP, evalJ_zero]
+  unfold PIneqHolds toP
+  unfold SIneq.holds at hh
+  cases hk : q.kind <;> cases hs : q.strict <;> simp only [hk, hs] at hh ⊢ <;> rw [hE] <;>
+    simp only [boundPair, hk, hs, PLe] <;> simp
+  · exact lt_or_eq_of_le hh
+  · exact Or.inl hh
+  · exact lt_or_eq_of_le hh
+  · exact Or.inl hh
+
+-- x + y > 1, x ≤ 0, 2y < 1 (no solution: a check() answers UNSAT);  2x > 1, 2x ≤ 2 (satisfiable)
+def exSUnsat : List SIneq := [⟨.ge, [(100, 1), (101, 1)], 1, true⟩, ⟨.le, [(100, 1)], 0, false⟩, ⟨.le, [(101, 2)], 1, true⟩]
+def exSSat : List SIneq := [⟨.ge, [(100, 2)], 1, true⟩, ⟨.le, [(100, 2)], 2, false⟩]
+
+example : poutcomeTag (runP 20 (exSUnsat.map toP)).1 = 1 ∧ poutcomeTag (runP 20 (exSSat.map toP)).1 = 0 := by decide +kernel
 
 end Holpy.C16
